@@ -14,7 +14,7 @@
 From RB Require Import Base.Prelude Sig.Types Sig.Parser Sig.ParserProofs Sig.Validator Sig.ValidatorProofs Sig.Iter
   Wire.Value Wire.SpecEnc Wire.Marshal Wire.Decode Wire.Unmarshal Wire.Relabel Wire.Ops Wire.DecodeSoundLemmas Wire.DecodeTotal
   Wire.HasSig Wire.HasSigProofs Wire.Body Wire.ParserTotal Wire.Bytes Wire.Align Wire.Derive Wire.Enums Wire.EnumsTotal
-  Wire.Limits Wire.LimitsProofs Wire.LimitsBounds Wire.Steps Wire.StepsProofs.
+  Wire.Limits Wire.LimitsProofs Wire.LimitsBounds Wire.Steps Wire.StepsProofs Wire.StepsParam Wire.StepsParamProofs.
 
 (* raw validation: any bytes, any offset inside the buffer, any (well-formed) type, both byte orders *)
 Theorem C04_total_validate : forall be off buf t, wf t = true -> off <= len buf ->
@@ -156,3 +156,28 @@ Theorem C04_steps_validate_depth : forall be vf t d off buf,
   /\ (forall n, fst (validate_s vf be d off buf t) = Ok n -> snd (validate_s vf be d off buf t) <= step_weight d * n /\ n <= len buf - off).
 Proof. intros be vf t d off buf Hw Ho H1 H2. split; [apply validate_s_proj|exact (validate_s_bound be vf t d off buf Hw Ho H1 H2)]. Qed.
 Print Assumptions C04_steps_validate_depth.
+
+(* steps of the Param decoder, EVERY outcome. [unmarshal_ps] (Wire/StepsParam.v) is [unmarshal_p] clause by clause with the same
+   counter (1 per call of unmarshal_with_sig, 1 per loop round, 1 per dict key call); its first component is the uninstrumented
+   model at every fuel, in particular at the fuel of C04_total_param: *)
+Theorem C04_steps_param_proj : forall be vf t c, fst (unmarshal_ps vf be t c) = unmarshal_p vf be t c.
+Proof. exact unmarshal_ps_proj. Qed.
+Print Assumptions C04_steps_param_proj.
+
+(* at most 129 steps per byte left in the buffer, plus 129, however the run ends; a run that returns a value made at most 129
+   steps per byte it consumed. (This decoder has no fast path: an array of n bytes costs 2 n + 1 steps.) *)
+Theorem C04_steps_param_bound : forall be t c, wf t = true -> uoff c <= len (ubuf c) ->
+  snd (unmarshal_ps 66 be t c) <= 129 * (len (ubuf c) - uoff c) + 129
+  /\ (forall v c', fst (unmarshal_ps 66 be t c) = Ok (v, c') ->
+        snd (unmarshal_ps 66 be t c) <= 129 * (uoff c' - uoff c) /\ uoff c < uoff c' <= len (ubuf c)).
+Proof. exact unmarshal_ps_66_bound. Qed.
+Print Assumptions C04_steps_param_bound.
+
+(* the same inside udepth c containers: the weight of a byte is step_weight (udepth c) = 2 * (64 - udepth c) + 1 *)
+Theorem C04_steps_param_depth : forall be vf t c,
+  wf t = true -> uoff c <= len (ubuf c) -> (1 <= vf)%nat -> 65 <= N.of_nat vf + udepth c ->
+  snd (unmarshal_ps vf be t c) <= step_weight (udepth c) * (len (ubuf c) - uoff c) + step_weight (udepth c)
+  /\ (forall v c', fst (unmarshal_ps vf be t c) = Ok (v, c') ->
+        snd (unmarshal_ps vf be t c) <= step_weight (udepth c) * (uoff c' - uoff c) /\ uoff c < uoff c' <= len (ubuf c)).
+Proof. exact unmarshal_ps_bound. Qed.
+Print Assumptions C04_steps_param_depth.
